@@ -2,7 +2,8 @@
 //! UF-field element types, counting how many source numbers every call consumes.
 //!   (17 1 ty mean var x)                 -> value
 //!   (17 2 ty mean var k source)          -> (option-list consumed)
-//!   (17 3 ty k mean cov source (ns nf))  -> ( M T )   (see coq/theories/Run/RunC17.v)
+//!   (17 3 ty k mean cov source (ns nf))  -> ( M T )   (see coq/theories/Run/RunC17.v), k >= 1
+//!   (17 5 ty mean cov source (ns nf))    -> ( M T )   the same with k = 0 (known finding K1)
 //!   (17 4 ty data)                       -> outcome (mean variance)
 use crate::guarded;
 use crate::num::{dec_list, enc_list, Enc};
@@ -116,10 +117,21 @@ where
             ) else {
                 return bad_case();
             };
-            if names.len() != 2 || k > 1 << 16 {
+            if names.len() != 2 || k > 1 << 16 || k == 0 {
                 return bad_case();
             }
             mv::<T>(k, mean, cov, src, names[0], names[1])
+        }
+        (5, 4) => {
+            let (Some(mean), Some(cov), Some(src), Some(names)) =
+                (dec_mat::<T>(&args[0]), dec_mat::<T>(&args[1]), dec_list::<T>(&args[2]), args[3].usizes())
+            else {
+                return bad_case();
+            };
+            if names.len() != 2 {
+                return bad_case();
+            }
+            mv::<T>(0, mean, cov, src, names[0], names[1])
         }
         (4, 1) => {
             let Some(data) = dec_list::<T>(&args[0]) else { return bad_case() };
